@@ -66,6 +66,11 @@ CHECKS = {
    text="Same state space as C01. For every Show block the set of cells whose write stamp is the block must be contained in: cells a store changed (or that were unlocked) since the previous Show, cells whose expected display differs from the expected display at the previous Show (this is how columns covered/uncovered by wide runes enter), the other column of such wide runes, and the helper cells of the bottom-right insert-character detour; locked cells must never be written. A Show with no change writes no cell.",
    note="Same trusted base as C01; a->b->a between two Shows counts as changed (the statement does not fix it).",
    design="2/C13"),
+ "C09": dict(level="exploration",
+   technique="exhaustive enumeration of every code point as cell content (via SetContent and Fill, 4 locales, 2 terminals, 2 screen sizes) through a strict output tokenizer, plus explicit-state draw histories with the tokenizer on every block",
+   text="Part 1 (complete): every rune from -2 to 0x110001 plus MinInt32/MaxInt32 as primary content through SetContent (every column, including the last) and through Fill, on 3x1 and 2x1 screens, in UTF-8, ISO8859-1, US-ASCII and GBK locales, on a DEC-ACS terminal (xterm-256color) and one without (sun): the reference terminal's strict tokenizer must accept every byte, no control function may take effect (bell, shift, charset, title, scroll), no C0/DEL/C1 may arrive as text, and runes that must be blanked show a blank. Part 2: BFS over draw histories (wide runes, styles, resize/corruption, mixed, and an extreme-values alphabet with long combining lists, odd colours, urls containing ; and %) with the tokenizer applied to every write block, which must end in the ground state.",
+   note="The tokenizer is the reference terminal's parser (complete CSI/OSC/ESC grammar, numeric parameters only, valid charset bytes); zero-width classification follows go-runewidth as the statement says.",
+   design="2/C09"),
  # --- new checks above this line ---
 }
 
